@@ -20,6 +20,7 @@ pub struct Reporter {
     printed_known: BTreeSet<String>,
     pub violations: u64,
     pub known_hits: u64,
+    pub unreproduced: u64,
     pub exit: i32,
     seed: u64,
     attempts: u64,
@@ -33,6 +34,7 @@ impl Reporter {
             printed_known: BTreeSet::new(),
             violations: 0,
             known_hits: 0,
+            unreproduced: 0,
             exit: 0,
             seed,
             attempts: 0,
@@ -64,23 +66,34 @@ impl Reporter {
             o.insert("seed".into(), Value::from(self.seed));
         }
         let path = evidence::write_replay(&self.property, &name, &v);
-        // Replay in a fresh process: only a reproducible failure is a violation.
+        // Replay in a fresh process: only a failure that reproduces - same violation class -
+        // is a violation. Two attempts. A replay that shows another class is a harness error;
+        // one that shows nothing at all, twice, is an observation that cannot be reported
+        // (noted on stderr and counted, the run does not fail on it).
         let exe = std::env::current_exe().unwrap();
-        let out = std::process::Command::new(exe)
-            .arg(&self.property)
-            .arg("--replay")
-            .arg(&path)
-            .env("VERIF_REPLAY_CHILD", "1")
-            .output();
-        let reproduced = out.as_ref().map(|o| o.status.code() == Some(1)).unwrap_or(false);
-        if !reproduced {
-            eprintln!(
-                "harness error: {} violation did not replay in a fresh process ({}): {}",
-                self.property,
-                path.display(),
-                f.detail
-            );
-            self.exit = self.exit.max(2);
+        let mut codes = vec![];
+        for _ in 0..2 {
+            let out = std::process::Command::new(&exe)
+                .arg(&self.property)
+                .arg("--replay")
+                .arg(&path)
+                .env("VERIF_REPLAY_CHILD", "1")
+                .env("VERIF_REPLAY_CLASS", &f.class)
+                .output();
+            let code = out.as_ref().ok().and_then(|o| o.status.code());
+            codes.push(code);
+            if code == Some(1) {
+                break;
+            }
+        }
+        if !codes.contains(&Some(1)) {
+            if codes.iter().all(|c| *c == Some(0)) {
+                eprintln!("note: UNREPRODUCED-OBSERVATION property={} [{}] did not show again in two fresh replays of {} and is not reported: {}", self.property, f.key, path.display(), f.detail);
+                self.unreproduced += 1;
+            } else {
+                eprintln!("harness error: {} violation did not replay in a fresh process (exit codes {:?}, {}): {}", self.property, codes, path.display(), f.detail);
+                self.exit = self.exit.max(2);
+            }
             return;
         }
         println!("violation [{}]: {}", f.key, f.detail);
@@ -98,6 +111,13 @@ impl Reporter {
     pub fn replay_result(property: &str, path: &str, violated: Option<(String, String)>) -> i32 {
         match violated {
             Some((class, detail)) => {
+                if let Ok(want) = std::env::var("VERIF_REPLAY_CLASS")
+                    && want != class
+                {
+                    // the parent asked for one class; something else showed
+                    println!("replayed [{class}] instead of [{want}]: {detail}");
+                    return 3;
+                }
                 if std::env::var("VERIF_REPLAY_CHILD").is_err() {
                     println!("replayed [{class}]: {detail}");
                     println!("VIOLATION property={property} replay={path}");
